@@ -1,27 +1,36 @@
 //@ unit: C18.find_range
 //@ props: C18
 //@ source: src/debugger/debugee/registry.rs
-//@ fn: DwarfRegistry::find_range (comparator closure + lookup)
-//@ shim: src/debugger/debugee/registry.rs :: struct DwarfRegistry :: ranges: Vec<(PathBuf, RegionRange)>
+//@ fn: DwarfRegistry::find_range (comparator closure + lookup), DwarfRegistry::find_by_addr, DwarfRegistry::find_mapping_offset
+//@ shim: src/debugger/debugee/registry.rs :: struct DwarfRegistry :: ranges: Vec<(PathBuf, RegionRange)>, files: HashMap<PathBuf, DebugInformation>, mappings: HashMap<PathBuf, usize>
 //@ shim: src/debugger/debugee/registry.rs :: struct RegionRange :: from: RelocatedAddress, to: RelocatedAddress
 //@ assume: data-structure invariant wf_ranges (sorted by `from`, from <= to, to[i] <= from[i+1]) is assumed at the lookup; it is established by update_mappings' sort plus disjointness of /proc/<pid>/maps regions (environment)
 //@ assume: std contract of slice::binary_search_by for a comparator that partitions the slice (Less* Equal* Greater*), composed with `.ok().map(|idx| &self.ranges[idx])`
 //@ notcovered: reading /proc/<pid>/maps, rendezvous, deferred-breakpoint retry, dlopen histories, `sharedlib info`; observation: the comparator's upper bound is closed (`addr <= range.to`) although `to` is one past the last mapped byte
 use vstd::prelude::*;
 use core::cmp::Ordering;
+use std::collections::HashMap;
+use vstd::std_specs::hash::*;
 verus! {
 //@ include: prelude.rs
 
 #[derive(Clone, Copy, PartialEq, Eq, PartialOrd, Ord)]
 pub struct RelocatedAddress(pub usize);
+#[derive(PartialEq, Eq, Hash)]
 pub struct PathBuf(pub u64);
+pub struct DebugInformation(pub u64);
 pub struct RegionRange {
     pub from: RelocatedAddress,
     pub to: RelocatedAddress,
 }
 pub struct DwarfRegistry {
     pub ranges: Vec<(PathBuf, RegionRange)>,
+    pub files: HashMap<PathBuf, DebugInformation>,
+    pub mappings: HashMap<PathBuf, usize>,
 }
+/// `opt.copied()`
+#[verifier::external_body]
+fn outline_copied(o: Option<&usize>) -> (r: Option<usize>) ensures r is Some == o is Some, r is Some ==> r->Some_0 == *o->Some_0, { unimplemented!() }
 
 pub open spec fn rfrom(s: &DwarfRegistry, i: int) -> int { s.ranges@[i].1.from.0 as int }
 pub open spec fn rto(s: &DwarfRegistry, i: int) -> int { s.ranges@[i].1.to.0 as int }
@@ -87,6 +96,21 @@ impl DwarfRegistry {
 //@   ensures E_some: r is Some ==> r->Some_0.1.from.0 <= addr.0 <= r->Some_0.1.to.0 && exists|i: int| 0 <= i < self.ranges@.len() && #[trigger] self.ranges@[i] == *r->Some_0
 //@   ensures E_none: r is None ==> forall|i: int| 0 <= i < self.ranges@.len() ==> !(#[trigger] rfrom(self, i) <= addr.0 <= rto(self, i))
 //@   outline O_lookup: `self.ranges .binary_search_by($c) .ok() .map(|idx| &self.ranges[idx])` => `{ proof { lemma_wf_partitioned(self, addr); } self.outline_lookup(addr) }`
+//@ end
+
+//@ extract: impl DwarfRegistry / fn find_by_addr
+//@   ret: r
+//@   requires R_wf: wf_ranges(self) && obeys_key_model::<PathBuf>()
+//@   ensures E_fba: r is Some ==> exists|i: int| 0 <= i < self.ranges@.len() && rfrom(self, i) <= addr.0 <= rto(self, i) && self.files@.contains_key(#[trigger] self.ranges@[i].0) && *r->Some_0 == self.files@[self.ranges@[i].0]
+//@   proof begin: broadcast use group_hash_axioms;
+//@ end
+
+//@ extract: impl DwarfRegistry / fn find_mapping_offset
+//@   ret: r
+//@   requires R_wf: wf_ranges(self) && obeys_key_model::<PathBuf>()
+//@   ensures E_fmo: r is Some ==> exists|i: int| 0 <= i < self.ranges@.len() && rfrom(self, i) <= addr.0 <= rto(self, i) && self.mappings@.contains_key(#[trigger] self.ranges@[i].0) && r->Some_0 == self.mappings@[self.ranges@[i].0]
+//@   proof begin: broadcast use group_hash_axioms;
+//@   outline O_cp: `self.mappings.get(path).copied()` => `outline_copied(self.mappings.get(path))`
 //@ end
 }
 
